@@ -141,13 +141,69 @@ PROVOKE = [dict(J('pa'), forever=True, critical=True),
            dict(J('pb'), req=['pn', 'pa'])]
 
 
-def check_dot(tree, toppure):
+def edits_of(tree):
+    """single edits that keep the tree closed: drop one requirement edge, or
+    remove one atomic job that nothing requires; -> (edit, tree before)"""
+    for level in levels(tree):
+        for n in level:
+            for r in n['req']:
+                yield ('rm_edge', r, n['name'])
+        required = {r for n in level for r in n['req']}
+        for n in level:
+            if n['kids'] is None and n['name'] not in required:
+                yield ('rm_job', n['name'])
+
+
+def apply_edit_spec(tree, edit):
+    t = copy.deepcopy(tree)
+    for level in levels(t):
+        if edit[0] == 'rm_edge':
+            for n in level:
+                if n['name'] == edit[2] and edit[1] in n['req']:
+                    n['req'].remove(edit[1])
+        else:
+            for n in list(level):
+                if n['name'] == edit[1]:
+                    level.remove(n)
+    return t
+
+
+def apply_edit_real(top, objs, tree, edit):
+    if edit[0] == 'rm_edge':
+        objs[edit[2]].requires(objs[edit[1]], remove=True)
+        return
+    # find the scheduler holding the job
+    def holder(nodes, sched):
+        for n in nodes:
+            if n['name'] == edit[1]:
+                return sched
+            if n['kids'] is not None:
+                h = holder(n['kids'], objs[n['name']])
+                if h is not None:
+                    return h
+        return None
+    holder(tree, top).remove(objs[edit[1]])
+
+
+def check_dot(tree, toppure, edit=None):
+    """with `edit`: `tree` is the tree BEFORE the edit; it is built and
+    rendered, the edit is applied to the live objects, and the second
+    rendering is judged against the edited tree"""
     msgs = []
     try:
         build(copy.deepcopy(PROVOKE), toppure)[0].dot_format()
     except Exception:
         pass
     top, objs = build(tree, toppure)
+    if edit is not None:
+        try:
+            top.dot_format()
+            with seq.captured():
+                top.list()
+        except Exception:
+            pass
+        apply_edit_real(top, objs, tree, edit)
+        tree = apply_edit_spec(tree, edit)
     try:
         text = top.dot_format()
     except Exception as exc:
@@ -430,8 +486,10 @@ def short(tree):
     return ' '.join(r(n) for n in tree)
 
 
-def _one(tree, toppure, res, use_dot, do_list):
-    msgs, text = check_dot(tree, toppure)
+def _one(tree, toppure, res, use_dot, do_list, edit=None):
+    msgs, text = check_dot(tree, toppure, edit)
+    if edit is not None:
+        do_list = False
     if text is not None and use_dot and not msgs:
         m = dot_binary(text)
         if m:
@@ -447,19 +505,47 @@ def _one(tree, toppure, res, use_dot, do_list):
         res['nontrivial'] += 1
     for key, m in msgs[:2]:
         seq.add_violation(res, 'c20:' + key, "%s | tree top(%s){%s}" % (
-            m, 'PureScheduler' if toppure else 'Scheduler', short(tree)),
-            {'tree': tree, 'toppure': toppure}, cap=10)
+            m, 'PureScheduler' if toppure else 'Scheduler', short(tree))
+            + ('' if edit is None else ' rendered, then %s, then rendered '
+               'again' % (list(edit),)),
+            {'tree': tree, 'toppure': toppure, 'edit': edit}, cap=10)
 
 
-def one(tree, toppure, res, use_dot, do_list):
-    _, hang = seq.guarded(_one, tree, toppure, res, use_dot, do_list)
+def one(tree, toppure, res, use_dot, do_list, edit=None):
+    _, hang = seq.guarded(_one, tree, toppure, res, use_dot, do_list, edit)
     if hang:
         seq.add_violation(res, 'c20:hang', "%s | tree %s" % (hang, short(tree)),
-                          {'tree': tree, 'toppure': toppure})
+                          {'tree': tree, 'toppure': toppure, 'edit': edit})
+
+
+def big_trees():
+    """trees around the 9/10-node boundary where ids become two digits wide"""
+    for extra in range(0, 5):
+        flat = [J(c) for c in 'abcdefg'[:3 + extra]]
+        for i in range(1, len(flat)):
+            flat[i]['req'].append(flat[i - 1]['name'])
+        inner = N('n', [J('x'), J('y')])
+        inner['kids'][1]['req'].append('x')
+        inner['req'].append(flat[0]['name'])
+        deep = N('m', [J('p'), N('k', [J('u')])])
+        deep['req'].append('n')
+        last = J('z')
+        last['req'] += ['n', 'm', flat[-1]['name']]
+        yield flat + [inner, deep, last]
 
 
 def run_item(item):
     res = seq.new_result()
+    if item.get('kind') == 'big':
+        for tree in big_trees():
+            for toppure in (False, True):
+                one(tree, toppure, res, use_dot=True, do_list=True)
+                for edit in edits_of(tree):
+                    one(tree, toppure, res, use_dot=False, do_list=False,
+                        edit=edit)
+            res['states'] += 1
+        res['scenarios'] = 5
+        return res
     th = item['thorough']
     allshapes = list(shapes(item['skel']))
     lo, hi = item['range']
@@ -470,6 +556,10 @@ def run_item(item):
                     break
                 one(t, item['toppure'], res, use_dot=True,
                     do_list=(mode == 'flags'))
+        if 'flags' in item['modes']:
+            for edit in edits_of(tree):
+                one(tree, item['toppure'], res, use_dot=False, do_list=False,
+                    edit=edit)
         res['states'] += 1
     res['scenarios'] = hi - lo
     res['outcomes'] = len(_dot_seen)
@@ -483,6 +573,7 @@ def run_item(item):
 
 def items(tier, seed):
     th = tier == 'thorough'
+    yield {'kind': 'big'}
     for skel in SKELETONS:
         total = len(list(shapes(skel)))
         step = 8
@@ -499,7 +590,9 @@ def items(tier, seed):
 def replay(rep):
     res = seq.new_result()
     _dot_seen.clear()
-    one(rep['tree'], rep['toppure'], res, use_dot=True, do_list=True)
+    edit = rep.get('edit')
+    one(rep['tree'], rep['toppure'], res, use_dot=True, do_list=True,
+        edit=tuple(edit) if edit else None)
     return sorted(v['msg'] for v in res['violations'])
 
 
